@@ -19,294 +19,26 @@
 package main
 
 import (
-	"bytes"
-	"context"
 	"encoding/hex"
 	"encoding/json"
 	"fmt"
-	"io"
-	"net/http"
 	"os"
 	"sort"
 	"strings"
 	"sync"
 	"time"
 
-	"google.golang.org/grpc"
-	"google.golang.org/grpc/codes"
-	"google.golang.org/grpc/status"
-	"google.golang.org/protobuf/encoding/protojson"
-	"google.golang.org/protobuf/proto"
-	"google.golang.org/protobuf/types/known/emptypb"
-
-	"github.com/drand/drand/v2/common"
-	pdkg "github.com/drand/drand/v2/protobuf/dkg"
-	pb "github.com/drand/drand/v2/protobuf/drand"
 	"github.com/drand/drand/v2/verifharness/bench"
+	"github.com/drand/drand/v2/verifharness/dw"
 	"github.com/drand/drand/v2/verifharness/vlib"
 )
-
-const (
-	callDeadline    = 20 * time.Second
-	confirmDeadline = 90 * time.Second
-	probeDeadline   = 30 * time.Second
-)
-
-type outcome struct {
-	Class    string `json:"class"` // ok | <grpc code> | open (stream waiting) | timeout
-	Err      string `json:"error,omitempty"`
-	Ms       int64  `json:"ms"`
-	TimedOut bool   `json:"timed_out,omitempty"`
-}
-
-func classify(err error) (string, string) {
-	if err == nil {
-		return "ok", ""
-	}
-	if err == io.EOF {
-		return "eof", ""
-	}
-	st, _ := status.FromError(err)
-	msg := st.Message()
-	if len(msg) > 160 {
-		msg = msg[:160]
-	}
-	return st.Code().String(), msg
-}
-
-func (w *world) call(r request, m proto.Message, deadline time.Duration) outcome {
-	t0 := time.Now()
-	ctx, cancel := context.WithTimeout(context.Background(), deadline)
-	defer cancel()
-	var o outcome
-	if !r.stream {
-		err := w.Conn.Invoke(ctx, r.method, m, &emptypb.Empty{})
-		o.Class, o.Err = classify(err)
-		o.TimedOut = status.Code(err) == codes.DeadlineExceeded
-	} else {
-		// a stream: send the request, wait (a little more than two periods) for the first item or the end
-		sctx, scancel := context.WithTimeout(ctx, 2500*time.Millisecond)
-		defer scancel()
-		st, err := w.Conn.NewStream(sctx, &grpc.StreamDesc{ServerStreams: true}, r.method)
-		if err == nil {
-			if err = st.SendMsg(m); err == nil {
-				_ = st.CloseSend()
-				err = st.RecvMsg(&emptypb.Empty{})
-			}
-		}
-		o.Class, o.Err = classify(err)
-		if status.Code(err) == codes.DeadlineExceeded {
-			o.Class, o.Err = "open", "" // a stream with nothing to deliver yet stays open: legitimate
-		}
-	}
-	o.Ms = time.Since(t0).Milliseconds()
-	return o
-}
-
-func (w *world) httpCall(method, path string, deadline time.Duration) outcome {
-	t0 := time.Now()
-	ctx, cancel := context.WithTimeout(context.Background(), deadline)
-	defer cancel()
-	var o outcome
-	req, err := http.NewRequestWithContext(ctx, method, "http://"+w.PubAddr+path, nil)
-	if err != nil {
-		return outcome{Class: "client-refused", Err: err.Error()}
-	}
-	resp, err := (&http.Client{}).Do(req)
-	if err != nil {
-		o.Class, o.Err = "transport-error", err.Error()
-		o.TimedOut = ctx.Err() != nil
-	} else {
-		_, _ = io.Copy(io.Discard, resp.Body)
-		_ = resp.Body.Close()
-		o.Class = fmt.Sprint(resp.StatusCode)
-	}
-	o.Ms = time.Since(t0).Milliseconds()
-	return o
-}
-
-// probe sends valid requests to every endpoint, one through each internal lock; it returns the probes that failed.
-func (w *world) probe() []string {
-	var bad []string
-	fail := func(name string, err error) { bad = append(bad, fmt.Sprintf("%s: %v", name, err)) }
-	ctx, cancel := context.WithTimeout(context.Background(), probeDeadline)
-	defer cancel()
-	for _, id := range []string{"default", "run2"} {
-		c := w.Chains[id]
-		r, err := w.Public.PublicRand(ctx, &pb.PublicRandRequest{Metadata: mdFor(id)})
-		if err != nil {
-			fail("rand/"+id, err)
-			continue
-		}
-		b := &common.Beacon{Round: r.Round, Signature: r.Signature, PreviousSig: r.PreviousSignature}
-		if err := c.Scheme.VerifyBeacon(b, c.PubKey); err != nil {
-			fail("rand/"+id, fmt.Errorf("latest beacon does not verify: %w", err))
-		}
-		// the service loop: the head keeps advancing (period 1 s; generous allowance for a loaded machine)
-		if r.Round > w.lastHead[id] {
-			w.lastHead[id], w.lastHeadAt[id] = r.Round, time.Now()
-		} else if time.Since(w.lastHeadAt[id]) > 45*time.Second {
-			fail("production/"+id, fmt.Errorf("head stuck at round %d for %s", r.Round, time.Since(w.lastHeadAt[id]).Round(time.Second)))
-		}
-	}
-	if info, err := w.Public.ChainInfo(ctx, &pb.ChainInfoRequest{Metadata: mdFor("run2")}); err != nil {
-		fail("info/run2", err)
-	} else if !bytes.Equal(info.Hash, w.Chains["run2"].Hash) {
-		fail("info/run2", fmt.Errorf("wrong chain hash"))
-	}
-	if _, err := w.Protocol.GetIdentity(ctx, &pb.IdentityRequest{Metadata: mdFor("default")}); err != nil {
-		fail("identity/default", err)
-	}
-	if _, err := w.Protocol.GetIdentity(ctx, &pb.IdentityRequest{Metadata: mdFor("fresh1")}); err != nil {
-		fail("identity/fresh1", err)
-	}
-	sctx, scancel := context.WithTimeout(ctx, probeDeadline)
-	if st, err := w.Protocol.SyncChain(sctx, &pb.SyncRequest{FromRound: 1, Metadata: mdFor("default")}); err != nil {
-		fail("sync/default", err)
-	} else if p, err := st.Recv(); err != nil || p.Round != 1 {
-		fail("sync/default", fmt.Errorf("first packet: %v %v", p.GetRound(), err))
-	}
-	scancel()
-	if _, err := w.Protocol.PartialBeacon(ctx, &pb.PartialBeaconPacket{Round: 1, PartialSig: make([]byte, 98), PreviousSignature: make([]byte, 96), Metadata: mdFor("default")}); status.Code(err) == codes.DeadlineExceeded || status.Code(err) == codes.Unavailable {
-		fail("partial/default", err)
-	}
-	// through the DKG process lock: an abort of somebody who is not the leader (refused, but only after the lock was taken)
-	for _, id := range []string{"mid1", "mid3"} {
-		pkt := &pdkg.GossipPacket{Packet: &pdkg.GossipPacket_Abort{Abort: &pdkg.AbortDKG{Reason: "probe"}}}
-		w.sign(w.g2.kp, id, pkt, w.terms[id], w.g2.part)
-		if _, err := w.DKG.Packet(ctx, pkt); status.Code(err) == codes.DeadlineExceeded || status.Code(err) == codes.Unavailable {
-			fail("dkg-packet/"+id, fmt.Errorf("probe abort by a non-leader: %v", err))
-		}
-	}
-	// through the broadcast board lock of the running DKG: a bundle with a wrong signature
-	bd := proto.Clone(w.probeBundle).(*pdkg.Packet)
-	if _, err := w.DKG.BroadcastDKG(ctx, &pdkg.DKGPacket{Dkg: bd}); status.Code(err) == codes.DeadlineExceeded || status.Code(err) == codes.Unavailable {
-		// (no error is legitimate too: the board answers a bundle whose hash it has already seen before looking at the signature)
-		fail("dkg-broadcast/mid2", fmt.Errorf("probe bundle with a wrong signature: %v", err))
-	}
-	for _, p := range []string{"/chains", "/" + hex.EncodeToString(w.Chains["default"].Hash) + "/public/latest", "/" + hex.EncodeToString(w.Chains["run2"].Hash) + "/info", "/public/1"} {
-		if o := w.httpCall("GET", p, probeDeadline); o.Class != "200" {
-			fail("http"+p[:min(len(p), 12)], fmt.Errorf("%s %s", o.Class, o.Err))
-		}
-	}
-	if err := w.Ctrl.Ping(); err != nil {
-		fail("control/ping", err)
-	}
-	return bad
-}
-
-// stateChanged compares the DKG status of every DKG chain with the one recorded after set-up.
-func (w *world) stateChanged() string {
-	for _, id := range dkgChains {
-		if s := w.dkgStatus(id); s != w.status0[id] {
-			return fmt.Sprintf("%s: %s -> %s", id, w.status0[id], s)
-		}
-	}
-	return ""
-}
-
-type item struct {
-	Kind   string `json:"kind"` // grpc | http
-	Method string `json:"method"`
-	Stream bool   `json:"stream,omitempty"`
-	State  string `json:"node_state"`
-	Target string `json:"target"`
-	Base   string `json:"base"`
-	Desc   string `json:"variant"`
-	Signed string `json:"signed,omitempty"` // stale | resigned
-	JSON   string `json:"request_json,omitempty"`
-	Hex    string `json:"request_hex,omitempty"`
-	msg    proto.Message
-	mut    func(proto.Message)
-	req    request
-}
-
-func (it item) id() string {
-	s := it.Method + "/" + it.State + "/" + it.Base + "/" + it.Desc
-	if it.Signed != "" {
-		s += "/" + it.Signed
-	}
-	return s
-}
-
-func (w *world) do(it item, deadline time.Duration) outcome {
-	if it.Kind == "http" {
-		return w.httpCall(it.Method, it.Desc, deadline)
-	}
-	m := it.msg
-	if it.req.rebase != nil {
-		m = it.req.rebase(w)
-		if it.mut != nil {
-			it.mut(m)
-		}
-	}
-	return w.call(it.req, m, deadline)
-}
-
-// alphabet builds the requests; it needs a world because signatures and rounds are those of the running daemon's chains
-// (key material is deterministic, so every world yields the same alphabet up to timestamps).
-func alphabet(w *world, cfg mutCfg, targets []string) []item {
-	var out []item
-	for _, r := range w.bases(targets) {
-		for _, v := range cfg.variants(r.msg) {
-			it := item{Kind: "grpc", Method: r.method, Stream: r.stream, State: r.state, Target: r.target, Base: r.name, Desc: v.desc, msg: v.msg, mut: v.mut, req: r}
-			if r.resign == nil {
-				out = append(out, it)
-				continue
-			}
-			it.Signed = "stale"
-			if v.desc == "base" {
-				it.Signed = "valid"
-			}
-			out = append(out, it)
-			if v.desc != "base" && !strings.Contains(v.desc, "ignature") {
-				cl := proto.Clone(v.msg)
-				if r.resign(cl) {
-					it2 := it
-					it2.Signed, it2.msg = "resigned", cl
-					out = append(out, it2)
-				}
-			}
-		}
-	}
-	return out
-}
-
-func httpAlphabet(w *world) []item {
-	var out []item
-	hashes := []string{hex.EncodeToString(w.Chains["default"].Hash), hex.EncodeToString(w.Chains["run2"].Hash), hex.EncodeToString(w.Chains["stopped1"].Hash),
-		strings.Repeat("00", 32), "zz", "0", strings.Repeat("ab", 4096), "%00", "..", "public"}
-	h := w.head("default")
-	rounds := []string{"0", "1", fmt.Sprint(h), fmt.Sprint(h + 1), fmt.Sprint(h + 2), fmt.Sprint(h + 1000), "18446744073709551615", "18446744073709551616", "-1", "abc", "1e3", "0x10", "01",
-		strings.Repeat("9", 400), "latest", "", "%20", "1/2"}
-	var paths []string
-	for _, r := range rounds {
-		paths = append(paths, "/public/"+r)
-	}
-	paths = append(paths, "/info", "/health", "/chains", "/", "", "/nope", "/public", "/public/", "//public//latest", "/info/", "/chains/x", "/%", "/public/latest?x="+strings.Repeat("y", 5000))
-	for _, hs := range hashes {
-		for _, r := range rounds {
-			paths = append(paths, "/"+hs+"/public/"+r)
-		}
-		paths = append(paths, "/"+hs+"/info", "/"+hs+"/health", "/"+hs, "/"+hs+"/", "/"+hs+"/nope")
-	}
-	for _, m := range []string{"GET", "HEAD", "POST", "PUT", "DELETE", "OPTIONS", "PATCH"} {
-		for _, p := range paths {
-			if m != "GET" && strings.Count(p, "/") > 2 && !strings.HasPrefix(p, "/"+hashes[0]) {
-				continue // other methods: default paths and one hash
-			}
-			out = append(out, item{Kind: "http", Method: m, State: "daemon", Target: "-", Base: "http", Desc: p})
-		}
-	}
-	return out
-}
 
 var trace = os.Getenv("VERIF_C14_TRACE") != ""
 
 type finding struct {
 	kind   string
-	it     item
-	prev   *item
+	it     dw.Item
+	prev   *dw.Item
 	detail string
 }
 
@@ -317,12 +49,12 @@ func main() {
 		replay(c)
 		return
 	}
-	cfg := mutCfg{ids: allIDs(), big: 1 << 20, many: 100}
+	cfg := dw.MutCfg{IDs: dw.AllIDs(), Big: 1 << 20, Many: 100}
 	if !c.Quick() {
-		cfg.big = 3 << 20 // below the 4 MiB a gRPC server accepts, so that the handler really sees it
-		cfg.many = 300
+		cfg.Big = 3 << 20 // below the 4 MiB a gRPC server accepts, so that the handler really sees it
+		cfg.Many = 300
 	}
-	targets := allIDs()
+	targets := dw.AllIDs()
 	tStart := time.Now()
 	deadline := c.Deadline(12*time.Minute, 3*time.Hour)
 
@@ -330,22 +62,22 @@ func main() {
 	if workers > 8 {
 		workers = 8
 	}
-	w0, err := newWorld("")
+	w0, err := dw.NewWorld("")
 	if err != nil {
 		c.EngineError("cannot start the daemon bench: %v", err)
 		c.Finish("")
 		return
 	}
-	cfg.hashes = w0.hashes()
-	items := append(alphabet(w0, cfg, targets), httpAlphabet(w0)...)
-	w0.close()
+	cfg.Hashes = w0.ChainHashes()
+	items := append(dw.Alphabet(w0, cfg, targets), dw.HTTPAlphabet(w0)...)
+	w0.Close()
 	fmt.Printf("c14: %d requests in the alphabet\n", len(items))
 
 	var mu sync.Mutex
 	classes := map[string]int{}
 	perMethod := map[string]int{}
 	var cands []finding
-	var reps []item // one representative per (method, state, class) for depth 2
+	var reps []dw.Item // one representative per (method, state, class) for depth 2
 	repSeen := map[string]bool{}
 	stateChanging := 0
 	candGroup := map[string]int{}
@@ -355,16 +87,16 @@ func main() {
 	capped := false
 
 	// depth 1
-	runShard := func(shard []item, second *item) {
-		var w *world
+	runShard := func(shard []dw.Item, second *dw.Item) {
+		var w *dw.World
 		fresh := func() bool {
 			if w != nil {
-				w.close()
+				w.Close()
 			}
 			var err error
 			for try := 0; try < 3; try++ {
-				if w, err = newWorld(""); err == nil {
-					if bad := w.probe(); len(bad) > 0 {
+				if w, err = dw.NewWorld(""); err == nil {
+					if bad := w.Probe(); len(bad) > 0 {
 						err = fmt.Errorf("probes fail on a fresh daemon: %v", bad)
 						continue
 					}
@@ -380,7 +112,7 @@ func main() {
 		if !fresh() {
 			return
 		}
-		defer func() { w.close() }()
+		defer func() { w.Close() }()
 		for _, it := range shard {
 			if time.Now().After(deadline) {
 				mu.Lock()
@@ -397,17 +129,17 @@ func main() {
 			if skip {
 				continue // three variants of this base request already failed: the verdict is known, do not wait for more time-outs
 			}
-			seq := []item{it}
+			seq := []dw.Item{it}
 			if second != nil {
-				seq = []item{it, *second}
+				seq = []dw.Item{it, *second}
 			}
 			dirty := false
 			for k, x := range seq {
 				// signatures and timestamps of re-built messages belong to the world that built them; participants and keys
 				// are deterministic, so a message built on one world is valid on every other
-				o := w.do(x, callDeadline)
+				o := w.Do(x, dw.CallDeadline)
 				if trace && (x.Desc == "base" || x.Kind == "http") {
-					fmt.Printf("trace: %-60s %-14s -> %s %s (%d ms)\n", x.id(), x.Target, o.Class, o.Err, o.Ms)
+					fmt.Printf("trace: %-60s %-14s -> %s %s (%d ms)\n", x.ID(), x.Target, o.Class, o.Err, o.Ms)
 				}
 				mu.Lock()
 				classes[o.Class]++
@@ -421,7 +153,7 @@ func main() {
 					}
 				}
 				mu.Unlock()
-				var prev *item
+				var prev *dw.Item
 				if k == 1 {
 					prev = &seq[0]
 				}
@@ -429,23 +161,23 @@ func main() {
 				case !w.Alive():
 					mu.Lock()
 					candGroup[x.Kind+"|"+x.Method+"|"+x.Base]++
-					cands = append(cands, finding{"process-died", x, prev, "the daemon process exited: " + w.stderrTail()})
+					cands = append(cands, finding{"process-died", x, prev, "the daemon process exited: " + w.StderrTail()})
 					mu.Unlock()
 					dirty = true
 				case o.TimedOut:
 					mu.Lock()
 					candGroup[x.Kind+"|"+x.Method+"|"+x.Base]++
-					cands = append(cands, finding{"no-answer", x, prev, fmt.Sprintf("no answer within %s", callDeadline)})
+					cands = append(cands, finding{"no-answer", x, prev, fmt.Sprintf("no answer within %s", dw.CallDeadline)})
 					mu.Unlock()
 					dirty = true
 				default:
-					if bad := w.probe(); len(bad) > 0 {
+					if bad := w.Probe(); len(bad) > 0 {
 						mu.Lock()
 						candGroup[x.Kind+"|"+x.Method+"|"+x.Base]++
 						cands = append(cands, finding{"wedged", x, prev, "afterwards valid requests are no longer served: " + strings.Join(bad, "; ")})
 						mu.Unlock()
 						dirty = true
-					} else if ch := w.stateChanged(); ch != "" {
+					} else if ch := w.StateChanged(); ch != "" {
 						mu.Lock()
 						stateChanging++
 						mu.Unlock()
@@ -461,10 +193,10 @@ func main() {
 			}
 		}
 	}
-	parallel := func(list []item, second *item) {
+	parallel := func(list []dw.Item, second *dw.Item) {
 		var wg sync.WaitGroup
 		for s := 0; s < workers; s++ {
-			var shard []item
+			var shard []dw.Item
 			for i := s; i < len(list); i += workers {
 				shard = append(shard, list[i])
 			}
@@ -477,7 +209,7 @@ func main() {
 	depth1 := done
 	pairs := 0
 	if !c.Quick() && !capped {
-		sort.Slice(reps, func(i, j int) bool { return reps[i].id() < reps[j].id() })
+		sort.Slice(reps, func(i, j int) bool { return reps[i].ID() < reps[j].ID() })
 		// depth 2: every ordered pair of representatives (first: one per method/state/base/response class; second: the same set)
 		for i := range reps {
 			if time.Now().After(deadline) {
@@ -540,14 +272,14 @@ func main() {
 		f := cd.f
 		if !cd.ok {
 			unreproduced++
-			fmt.Printf("c14: candidate not reproduced on a fresh daemon (not reported): %s %s: %s\n", f.kind, f.it.id(), f.detail)
+			fmt.Printf("c14: candidate not reproduced on a fresh daemon (not reported): %s %s: %s\n", f.kind, f.it.ID(), f.detail)
 			continue
 		}
 		confirmed++
-		f.it.fill()
+		f.it.Fill()
 		rep := map[string]any{"kind": f.kind, "request": f.it, "detail": cd.detail}
 		if f.prev != nil {
-			f.prev.fill()
+			f.prev.Fill()
 			rep["previous_request"] = f.prev
 		}
 		detail := cd.detail
@@ -555,7 +287,7 @@ func main() {
 			rep["further_variants_same_behaviour_unconfirmed"] = m
 			detail += fmt.Sprintf(" (%d further variants of this base request behaved the same)", len(m))
 		}
-		c.Report(cd.fp, fmt.Sprintf("%s [node state %s, target %s]: %s", f.it.id(), f.it.State, f.it.Target, detail), rep)
+		c.Report(cd.fp, fmt.Sprintf("%s [node state %s, target %s]: %s", f.it.ID(), f.it.State, f.it.Target, detail), rep)
 	}
 
 	c.Count("states", 8)
@@ -582,83 +314,42 @@ func main() {
 		"response_classes": cl, "requests_per_method": pm, "representatives": len(reps), "pairs": pairs, "capped": capped, "confirmed": confirmed})
 	for i, it := range items {
 		if i%(len(items)/3+1) == 0 {
-			it.fill()
+			it.Fill()
 			c.Sample(it)
 		}
 	}
 	c.Assume("requests are protobuf-valid messages sent over real loopback gRPC / HTTP to a real daemon process; what the wire format cannot carry (nil inside a oneof, invalid UTF-8) is not generated",
-		"one field is changed per request (depth 1); oversize fields stay below the 4 MiB gRPC limit and long repeated fields at "+fmt.Sprint(cfg.many)+" elements",
+		"one field is changed per request (depth 1); oversize fields stay below the 4 MiB gRPC limit and long repeated fields at "+fmt.Sprint(cfg.Many)+" elements",
 		"the other DKG participants are harness-owned keys (a remote party that is a legitimate participant), so signed packets exist both with a stale and with a valid signature",
 		"bounded time = 20 s per request on loopback (a candidate is re-run alone with 90 s before it is reported); a stream that has nothing to deliver yet may stay open")
 	c.Finish("one request = one evaluation: call returned, process alive, probe set served (12 valid requests incl. one through the DKG process lock and one through the broadcast-board lock), DKG states compared; a request that changes state is followed by a daemon restart")
 }
 
-func (w *world) hashes() map[string][]byte {
-	m := map[string][]byte{}
-	for id, c := range w.Chains {
-		if c.Hash != nil {
-			m[id] = c.Hash
-		}
-	}
-	return m
-}
-
-func (it *item) fill() {
-	if it.msg != nil {
-		b, _ := protojson.Marshal(it.msg)
-		if len(b) > 1500 {
-			b = append(b[:1500], []byte("...")...)
-		}
-		it.JSON = string(b)
-		raw, _ := proto.Marshal(it.msg)
-		if len(raw) <= 8192 {
-			it.Hex = hex.EncodeToString(raw)
-		}
-	}
-}
-
 // confirm re-runs a candidate on a fresh daemon.
 func confirm(f finding) (bool, string) {
-	w, err := newWorld("")
+	w, err := dw.NewWorld("")
 	if err != nil {
 		return false, "cannot start a daemon: " + err.Error()
 	}
-	defer w.close()
-	if bad := w.probe(); len(bad) > 0 {
+	defer w.Close()
+	if bad := w.Probe(); len(bad) > 0 {
 		return false, "probes fail on a fresh daemon"
 	}
 	if f.prev != nil {
-		w.do(*f.prev, confirmDeadline)
+		w.Do(*f.prev, dw.ConfirmDeadline)
 	}
-	o := w.do(f.it, confirmDeadline)
+	o := w.Do(f.it, dw.ConfirmDeadline)
 	switch {
 	case !w.Alive():
-		return true, "the daemon process exited: " + w.stderrTail()
+		return true, "the daemon process exited: " + w.StderrTail()
 	case o.TimedOut:
-		bad := w.probe()
-		return true, fmt.Sprintf("no answer within %s; probes afterwards: %v", confirmDeadline, bad)
+		bad := w.Probe()
+		return true, fmt.Sprintf("no answer within %s; probes afterwards: %v", dw.ConfirmDeadline, bad)
 	}
-	if bad := w.probe(); len(bad) > 0 {
+	if bad := w.Probe(); len(bad) > 0 {
 		return true, fmt.Sprintf("answered (%s %s) but afterwards valid requests are no longer served: %s", o.Class, o.Err, strings.Join(bad, "; "))
 	}
 	return false, ""
-}
-
-func (w *world) stderrTail() string {
-	b, err := os.ReadFile(w.Spec.Dir + "/stderr.log")
-	if err != nil {
-		return ""
-	}
-	s := string(b)
-	if i := strings.Index(s, "panic:"); i >= 0 {
-		s = s[i:]
-	} else if i := strings.Index(s, "fatal error:"); i >= 0 {
-		s = s[i:]
-	}
-	if len(s) > 1200 {
-		s = s[:1200]
-	}
-	return s
 }
 
 func replay(c *vlib.Check) {
@@ -669,45 +360,40 @@ func replay(c *vlib.Check) {
 	}
 	var doc struct {
 		Replay struct {
-			Kind    string `json:"kind"`
-			Request item   `json:"request"`
+			Kind    string  `json:"kind"`
+			Request dw.Item `json:"request"`
 		} `json:"replay"`
 	}
 	if err := json.Unmarshal(b, &doc); err != nil {
 		fmt.Println("replay:", err)
 		os.Exit(2)
 	}
-	fmt.Printf("replay: %s %s (%s)\nrequest: %s\n", doc.Replay.Kind, doc.Replay.Request.id(), doc.Replay.Request.State, doc.Replay.Request.JSON)
-	w, err := newWorld("")
+	fmt.Printf("replay: %s %s (%s)\nrequest: %s\n", doc.Replay.Kind, doc.Replay.Request.ID(), doc.Replay.Request.State, doc.Replay.Request.JSON)
+	w, err := dw.NewWorld("")
 	if err != nil {
 		fmt.Println("replay:", err)
 		os.Exit(2)
 	}
-	defer w.close()
+	defer w.Close()
 	it := doc.Replay.Request
 	found := false
-	cfg := mutCfg{ids: allIDs(), big: 1 << 20, many: 100}
-	cfg.hashes = w.hashes()
-	for _, x := range append(alphabet(w, cfg, allIDs()), httpAlphabet(w)...) {
-		if x.id() == it.id() && x.Target == it.Target {
+	cfg := dw.MutCfg{IDs: dw.AllIDs(), Big: 1 << 20, Many: 100}
+	cfg.Hashes = w.ChainHashes()
+	for _, x := range append(dw.Alphabet(w, cfg, dw.AllIDs()), dw.HTTPAlphabet(w)...) {
+		if x.ID() == it.ID() && x.Target == it.Target {
 			it, found = x, true // rebuilt for this run's daemon (signatures, ports)
 			break
 		}
 	}
 	if !found && it.Kind == "grpc" {
 		raw, _ := hex.DecodeString(it.Hex)
-		it.msg = reqType(it.Method)
-		if it.msg == nil || len(raw) == 0 {
-			fmt.Println("replay: the request is not in this run's alphabet and its bytes were too large to keep")
+		var err error
+		if it, err = dw.RawItem(it, raw); err != nil {
+			fmt.Println("replay:", err)
 			os.Exit(0)
 		}
-		if err := proto.Unmarshal(raw, it.msg); err != nil {
-			fmt.Println("replay:", err)
-			os.Exit(2)
-		}
-		it.req = request{method: it.Method, stream: it.Stream}
 	}
-	o := w.do(it, confirmDeadline)
-	fmt.Printf("outcome: %+v\nprocess alive: %v\nprobes failing afterwards: %v\n", o, w.Alive(), w.probe())
+	o := w.Do(it, dw.ConfirmDeadline)
+	fmt.Printf("outcome: %+v\nprocess alive: %v\nprobes failing afterwards: %v\n", o, w.Alive(), w.Probe())
 	os.Exit(0)
 }
